@@ -7,7 +7,7 @@ FUN = ['FIX8::Session::heartbeat_service', 'Session::is_shutdown', 'Session::sto
 FUN_IN = ['FIX8::Session::process', 'Session::handle_test_request', 'Session::handle_heartbeat', 'Session::enforce', 'Session::sequence_check', 'Session::compid_check']
 
 def run(ctx):
-    kf = known_findings('C22'); defs = kf_defines(kf)
+    kf, defs = sessin.kf_defs('C22')
     info = sessin.build(ctx)
     ctx.assumptions += sessin.ASSUME + ['the connection is connected; outbound traffic is captured at Session::send, so _last_sent is not moved by the tick itself',
                                         'second-granular supervisor: "more than H+20%" is required to fire at the latest one second after the exact threshold and never before it']
@@ -36,7 +36,7 @@ def replay(ctx, cx, h=None):
         thr_ms = H * 1200
         if two:
             # native clock cannot be steered: reproduce the class "second tick immediately after the TestRequest": silence > H+20% at tick 1, tick 2 right away
-            steps, raw = sessin.run_steps(ctx, ['init,conn=1,role=I,hb=%d,state=1,recv=5,send=5,active=1,sent_ago_ms=0,recv_ago_ms=%d' % (H, thr_ms + 1500), 'tick', 'tick'])
+            steps, raw = sessin.run_steps(ctx, ['init,conn=1,role=A,sender=S,hb=%d,state=1,recv=5,send=5,active=1,sent_ago_ms=0,recv_ago_ms=%d' % (H, thr_ms + 1500), 'tick', 'tick'])
             if len(steps) < 2: return False, 'no output: ' + raw
             t1, t2 = steps[-2], steps[-1]
             tr = [s for s in t1['sent'] if s['type'] == '1']; lo = [s for s in t2['sent'] if s['type'] == '5']
@@ -44,7 +44,7 @@ def replay(ctx, cx, h=None):
             return bad, 'native: H=%d, tick 1 sends TestRequest, tick 2 immediately afterwards (elapsed << %d ms) sends %s | %s' % (H, thr_ms, 'Logout' if lo else 'nothing', raw[-250:])
         sent_ago = max(0, (now[0] - ls) // 1000000); recv_ago = max(0, (now[1] - lr) // 1000000)
         # keep away from the native clock's jitter: reproduce only when the counterexample is at least 300 ms off every threshold
-        steps, raw = sessin.run_steps(ctx, ['init,conn=1,role=I,hb=%d,state=%d,recv=5,send=5,active=1,sent_ago_ms=%d,recv_ago_ms=%d' % (H, int(c.get('cx_state', 1)), sent_ago, recv_ago), 'tick'])
+        steps, raw = sessin.run_steps(ctx, ['init,conn=1,role=A,sender=S,hb=%d,state=%d,recv=5,send=5,active=1,sent_ago_ms=%d,recv_ago_ms=%d' % (H, int(c.get('cx_state', 1)), sent_ago, recv_ago), 'tick'])
         if not steps: return False, 'no output: ' + raw
         r = steps[-1]; hb = len([s for s in r['sent'] if s['type'] == '0']); tr = len([s for s in r['sent'] if s['type'] == '1']); lo = len([s for s in r['sent'] if s['type'] == '5'])
         st = int(c.get('cx_state', 1))
